@@ -329,6 +329,7 @@ func (s *coreStack) dump() map[string]interface{} {
 		d := ut.GetResourceUsageDAOInfo()
 		qs := []map[string]interface{}{}
 		flattenUsage(d.Queues, &qs)
+		sort.Slice(qs, func(i, j int) bool { return qs[i]["path"].(string) < qs[j]["path"].(string) })
 		groups := [][]string{}
 		for a, g := range d.Groups {
 			groups = append(groups, []string{a, g})
@@ -342,6 +343,7 @@ func (s *coreStack) dump() map[string]interface{} {
 		d := gt.GetResourceUsageDAOInfo()
 		qs := []map[string]interface{}{}
 		flattenUsage(d.Queues, &qs)
+		sort.Slice(qs, func(i, j int) bool { return qs[i]["path"].(string) < qs[j]["path"].(string) })
 		apps := append([]string{}, d.Applications...)
 		sort.Strings(apps)
 		groups = append(groups, map[string]interface{}{"name": d.GroupName, "queues": qs, "apps": apps})
